@@ -60,16 +60,33 @@ func envInt(name string, def int) int {
 
 // grammarTexts renders the grammar corpus.  Every depth-1 expression stands in every position; a depth-2 expression
 // stands in perExpr positions chosen by rotation (0 = every position) and only every stride-th of them is used.
-func grammarTexts(perExpr, stride int) []fuzzInput {
+func grammarTexts(perExpr, stride int) []fuzzInput { return grammarTextsSk(perExpr, stride, 1, true) }
+
+// grammarTextsSk: as grammarTexts; of the clause skeletons only every skStride-th is used and, unless skParams, only
+// those without $parameters (the parameter variants of a skeleton have the same clause structure).
+func grammarTextsSk(perExpr, stride, skStride int, skParams bool) []fuzzInput {
 	path := os.Getenv("VH_GRAMMAR")
 	if path == "" {
 		return nil
 	}
 	var out []fuzzInput
-	n2 := 0
+	n2, nsk := 0, 0
 	for _, r := range tr.ReadLines[grammarRec](path) {
 		switch {
 		case len(r.Clauses) > 0:
+			if !skParams {
+				withParam := false
+				for _, c := range r.Clauses {
+					withParam = withParam || c.P
+				}
+				if withParam {
+					continue
+				}
+			}
+			nsk++
+			if skStride > 1 && nsk%skStride != 0 {
+				continue
+			}
 			out = append(out, fuzzInput{text: render(Skeleton{Clauses: r.Clauses}), class: "grammar:clauses"})
 		case r.Cls == "expr1":
 			e := joinToks(r.Toks)
